@@ -9,7 +9,8 @@ Driver for C11.  One request per line, `k=v` fields separated by spaces:
   op=addym A=<val> MONTHS=<int> [DATE=1]    (MONTHS already signed)
   op=diff  A=<val> B=<val>
   op=cmp   A=<val> B=<val>                  answers lt,le,eq,gt,ge as 5 bits
-  op=adjust A=<val> TZ=<minutes|n>
+  op=adjust A=<val> TZ=<minutes|n>          adjust-dateTime-to-timezone
+  op=adjustdate A=<val> TZ=<minutes|n>      adjust-date-to-timezone
   op=lex   V=<10|11> Y=<lexical year>       internal year and its string/year-from form back
   op=pyord N=<ordinal>                      CPython date.fromordinal / toordinal (trusted component)
   op=durcmp M1= S1= M2= S2=                 duration comparison (lt,le,gt,ge bits; µs)
@@ -19,7 +20,7 @@ Answer: `model=<..> spec=<..> inK=<0|1>`; errors `ERR:ValueError|OverflowError|T
 `inK=1` iff the input lies outside the domain of the corresponding theorem (trigger of F11d).
 -/
 import EPV.Proto
-import EPV.Lemmas.CalendarDelta
+import EPV.Lemmas.CalendarOps
 open EPV.Proto EPV.Cal
 open EPV.Timeline (Val)
 
@@ -148,6 +149,16 @@ def answer (line : String) : String :=
         | some _, some z => !(tdOk sv.instantC && tdOk (sv.instantC + z * UM))
         | _, _ => false
       out (showR showDT (adjustDateTime a tz)) (showVal spec) inK
+    | _, _ => "bad-args"
+  | "adjustdate" =>
+    match getA, parseTz (f "TZ") with
+    | some a, some tz =>
+      let sv := absV a
+      let spec := EPV.Timeline.adjustDate sv tz
+      let inK := match a.tz, tz with
+        | some z0, some z => !(decide (AddDomain a ((z - z0) * UM) false))
+        | _, _ => false
+      out (showR showDT (adjustDate a tz)) (showVal spec) inK
     | _, _ => "bad-args"
   | "lex" =>
     match int? (f "Y") with
